@@ -1070,6 +1070,82 @@ func staleAfterDeleteProbe(m *meta) {
 	m.count("stale_after_delete_probes")
 }
 
+// cleanupRace (C05): Cleanup sweeping a large shard while an expired, not yet swept key is rewritten with a long
+// TTL: the sweep must re-check the deadline under the lock it removes with; the fresh entry must survive.
+func cleanupRace(m *meta, rng *rand.Rand, round int) {
+	pol := pick(rng, []kioshun.EvictionPolicy{kioshun.LRU, kioshun.FIFO, kioshun.LFU, kioshun.SieveTinyLFU})
+	ctx := fmt.Sprintf("cleanup race round %d policy %v", round, pol)
+	var bad atomic.Int64
+	c, err := kioshun.New[int, int](kioshun.Config{ShardCount: 1, EvictionPolicy: pol, MaxSize: 0},
+		kioshun.WithOnRemove(func(k, v int, r kioshun.RemovalReason) {
+			if k == -1 && v%2 == 1 && r == kioshun.RemovedExpired {
+				bad.Add(1)
+			}
+		}))
+	must(err)
+	watch(ctx)
+	defer unwatch()
+	for k := 0; k < 12000; k++ {
+		c.Set(k, k, time.Hour) // fillers make the sweep long
+	}
+	lost := 0
+	for i := 0; i < 12; i++ {
+		c.Set(-1, 2*i, time.Microsecond)
+		time.Sleep(20 * time.Microsecond) // expired, not swept
+		done := make(chan struct{})
+		go func() { c.Cleanup(); close(done) }()
+		runtime.Gosched()
+		c.Set(-1, 2*i+1, time.Hour) // rewrite while the sweep may be between its scan and its removals
+		<-done
+		if v, ok := c.Get(-1); !ok || v != 2*i+1 {
+			lost++
+		}
+	}
+	c.VerifFlushRemovals()
+	time.Sleep(time.Millisecond)
+	if lost > 0 || bad.Load() > 0 {
+		m.violate("C05", fmt.Sprintf("%s: a key rewritten with a 1 h TTL while Cleanup was sweeping was lost %d times and reported expired %d times (Cleanup removes only expired entries)", ctx, lost, bad.Load()), ctx)
+	}
+	c.Close()
+	m.count("cleanup_race_rounds")
+}
+
+// deleteBehindQueue (C01, C04): a SetAsync(k,v2) that was accepted and is still queued (the drain token is busy), then
+// Delete(k): the Delete began after the SetAsync returned, so after Sync the key must be gone.
+func deleteBehindQueue(m *meta, rng *rand.Rand, round int) {
+	pol := pick(rng, []kioshun.EvictionPolicy{kioshun.LRU, kioshun.FIFO, kioshun.SieveTinyLFU, kioshun.LFU})
+	ctx := fmt.Sprintf("delete behind queue round %d policy %v", round, pol)
+	c, err := kioshun.New[int, int](kioshun.Config{ShardCount: 1, EvictionPolicy: pol, MaxSize: 64})
+	must(err)
+	watch(ctx)
+	defer unwatch()
+	c.Set(7, 1, kioshun.NoExpiration) // resident and visible
+	c.VerifHoldDrain(0, true)
+	if e := c.SetAsync(7, 2, kioshun.NoExpiration); e != nil {
+		m.violate("C04", ctx+": SetAsync failed", ctx)
+	}
+	var delRes bool
+	done := make(chan struct{})
+	go func() { delRes = c.Delete(7); close(done) }()
+	select {
+	case <-done:
+	case <-time.After(2 * time.Millisecond):
+	}
+	c.VerifHoldDrain(0, false)
+	<-done
+	c.Sync()
+	if v, ok := c.Get(7); ok {
+		for _, p := range []string{"C01", "C04"} {
+			m.violate(p, fmt.Sprintf("%s: Set(7,1); SetAsync(7,2) accepted (queued); Delete(7)=%v; Sync: Get(7) returns %d - a deleted key is served", ctx, delRes, v), ctx)
+		}
+	}
+	if !delRes {
+		m.violate("C01", ctx+": Delete(7) returned false although the key was resident", ctx)
+	}
+	c.Close()
+	m.count("delete_behind_queue_rounds")
+}
+
 // flickerProbe replays the schedule of C02.v's c02_atomic_refuted on the real cache through the yield hooks:
 // a reader parked after loading a matching tag, the key deleted and re-inserted into the same slot, the
 // writer parked between publish's item store and tag store. Finding F10 when it reproduces.
@@ -1406,6 +1482,8 @@ func streamConc(o opts) {
 			closeNotify(m, rng, r)
 			backlogProbe(m, rng, r)
 			statsRace(m, rng, r)
+			cleanupRace(m, rng, r)
+			deleteBehindQueue(m, rng, r)
 			m.nontrivial(fmt.Sprintf("async+close/%d", r%16))
 		case 3:
 			tableRace(m, rng, r)
